@@ -27,12 +27,19 @@
 (*                                                                         *)
 (* Faults (one per run, at the k-th driver round trip; BEGIN, PREPARE,     *)
 (* statements and COMMIT are counted): err, connloss, outage, deadline,    *)
-(* rowserr — see harness/server/db/sqlfake.                                *)
+(* rowserr — see harness/server/db/sqlfake and harness/server/db/pgfake.   *)
+(*                                                                         *)
+(* Two dialects share the program table and the mapper level: "mysql"      *)
+(* (above) and "pg": the PostgreSQL adapter on pgx, where a failed         *)
+(* statement aborts the transaction block, calls on a closed connection    *)
+(* fail without a round trip, and nothing rolls back on cancel().          *)
 (*                                                                         *)
 (* As-built deviations (TRUE = what the code does today):                  *)
 (*   DEV_CredUpsertShadowedErr  CredUpsert: `res, err := tx.Exec(...)`     *)
 (*        inside `if !cred.Done {` declares a NEW err; when that statement *)
 (*        fails the deferred handler sees nil and does not roll back.      *)
+(*        (MySQL adapter; DEV_PgCredUpsertShadowedErr: the same line in    *)
+(*        the PostgreSQL adapter.)                                         *)
 (*   DEV_UsersCreateCompensates Users.Create = UserCreate tx, TopicShare   *)
 (*        tx, and a best-effort UserDelete(hard) tx when the second fails. *)
 (*   DEV_TopicsCreateTwoTx      Topics.Create = TopicCreate tx + TopicShare*)
@@ -43,7 +50,7 @@
 (***************************************************************************)
 EXTENDS Integers, Sequences, FiniteSets, TLC
 
-CONSTANTS DEV_CredUpsertShadowedErr, DEV_UsersCreateCompensates, DEV_TopicsCreateTwoTx, DEV_DeleteListThreeTx
+CONSTANTS DEV_CredUpsertShadowedErr, DEV_PgCredUpsertShadowedErr, DEV_UsersCreateCompensates, DEV_TopicsCreateTwoTx, DEV_DeleteListThreeTx
 
 WriteVerbs == {"INSERT", "UPDATE", "DELETE", "REPLACE"}
 IsWrite(verb) == verb \in WriteVerbs
@@ -52,11 +59,14 @@ Configs == {"notimeout", "timeout"}   \* sql_timeout unset / set in the adapter 
 
 \* ------------------------------------------------------------------ programs
 \* A step: a round trip inside a segment.  ok = FALSE: the statement hits a duplicate key that the code handles.
-St(verb, tbl)  == [e |-> "STMT", verb |-> verb, tbl |-> tbl, ok |-> TRUE, q |-> verb = "SELECT", own |-> FALSE, shadow |-> FALSE]
+St(verb, tbl)  == [e |-> "STMT", verb |-> verb, tbl |-> tbl, ok |-> TRUE, q |-> verb = "SELECT", own |-> FALSE, shadow |-> FALSE,
+                   ign |-> FALSE, cleanup |-> <<>>]
 Dup(verb, tbl) == [St(verb, tbl) EXCEPT !.ok = FALSE]
 Pr(verb, tbl)  == [St(verb, tbl) EXCEPT !.e = "PREP", !.q = FALSE]
 Own(st)        == [st EXCEPT !.own = TRUE]        \* runs under its own context (ExecContext(ctx, ...))
 Shadow(st)     == [st EXCEPT !.shadow = TRUE]     \* its error is assigned to a shadowing variable
+Ign(st)        == [st EXCEPT !.ign = TRUE]        \* its error is logged or not looked at; the code goes on
+Cl(st, c)      == [st EXCEPT !.cleanup = c]       \* statements the code still issues (errors ignored) after this one failed
 Rep(n, st)     == [i \in 1..n |-> st]
 
 \* A fragment: steps, and whether the code leaves with an error right after them.
@@ -69,24 +79,37 @@ Then(a, b)     == IF a.exit THEN a ELSE [steps |-> a.steps \o b.steps, exit |-> 
 Seg(tx, ctx, steps, end) == [tx |-> tx, ctx |-> ctx, steps |-> steps, end |-> end, named |-> FALSE]
 TxSeg(fr)      == Seg(TRUE, TRUE, fr.steps, IF fr.exit THEN "errexit" ELSE "commit")
 Auto(verb, tbl) == Seg(FALSE, FALSE, <<Own(St(verb, tbl))>>, "commit")   \* a.db.ExecContext(ctx, one statement)
-OpOf(segs)     == [segs |-> segs, comp |-> <<>>, compFrom |-> 0]
+OpOf(segs)     == [segs |-> segs, comp |-> <<>>, compFrom |-> 0, dialect |-> "mysql"]
+Dialects       == {"mysql", "pg"}                 \* database/sql + go-sql-driver semantics / pgx + PostgreSQL semantics
 
-\* addTags (adapter.go:794): PREPARE once, one INSERT per tag; a duplicate is skipped or is ErrDuplicate.
-AddTags(tbl, n, dup, ignore) ==
+\* The fragments below take the dialect d: "mysql" transcribes server/db/mysql/adapter.go, "pg" server/db/postgres/adapter.go.
+
+\* addTags (mysql:794 PREPARE once, one INSERT per tag; postgres:646 one Exec per tag, no PREPARE).
+\* A duplicate is skipped (ignoreDups) or is ErrDuplicate.  NB postgres: the skipped duplicate has already aborted the transaction.
+AddTags(d, tbl, n, dup, ignore) ==
+  LET pre == IF d = "mysql" THEN <<Pr("INSERT", tbl)>> ELSE <<>> IN
   IF n <= 0 THEN F(<<>>)
-  ELSE IF dup = 0 \/ dup > n THEN F(<<Pr("INSERT", tbl)>> \o Rep(n, St("INSERT", tbl)))
-  ELSE IF ignore THEN F(<<Pr("INSERT", tbl)>> \o [i \in 1..n |-> IF i = dup THEN Dup("INSERT", tbl) ELSE St("INSERT", tbl)])
-  ELSE X(<<Pr("INSERT", tbl)>> \o Rep(dup - 1, St("INSERT", tbl)) \o <<Dup("INSERT", tbl)>>)
+  ELSE IF dup = 0 \/ dup > n THEN F(pre \o Rep(n, St("INSERT", tbl)))
+  ELSE IF ignore THEN F(pre \o [i \in 1..n |-> IF i = dup THEN Dup("INSERT", tbl) ELSE St("INSERT", tbl)])
+  ELSE X(pre \o Rep(dup - 1, St("INSERT", tbl)) \o <<Dup("INSERT", tbl)>>)
 
-\* createSubscription (adapter.go:1492): INSERT, on duplicate UPDATE; owner => UPDATE topics.
-CreateSub(d) ==
-  F((IF d[1] # 0 THEN <<Dup("INSERT", "subscriptions"), St("UPDATE", "subscriptions")>> ELSE <<St("INSERT", "subscriptions")>>)
-    \o (IF d[2] # 0 THEN <<St("UPDATE", "topics")>> ELSE <<>>))
-RECURSIVE CreateSubs(_)
-CreateSubs(subs) == IF subs = <<>> THEN F(<<>>) ELSE Then(CreateSub(Head(subs)), CreateSubs(Tail(subs)))
+\* createSubscription (mysql:1492): INSERT, on duplicate UPDATE; owner => UPDATE topics.
+\* postgres:1350 brackets the INSERT with SAVEPOINT / RELEASE SAVEPOINT (ROLLBACK TO SAVEPOINT on duplicate); the errors of
+\* these three statements are only logged; a non-duplicate INSERT error still issues RELEASE SAVEPOINT before returning.
+SP  == Ign(St("SAVEPOINT", ""))
+RBT == Ign(St("ROLLBACK_TO", ""))
+REL == Ign(St("RELEASE", ""))
+CreateSub(d, x) ==
+  LET own == IF x[2] # 0 THEN <<St("UPDATE", "topics")>> ELSE <<>> IN
+  IF d = "mysql"
+  THEN F((IF x[1] # 0 THEN <<Dup("INSERT", "subscriptions"), St("UPDATE", "subscriptions")>> ELSE <<St("INSERT", "subscriptions")>>) \o own)
+  ELSE F((IF x[1] # 0 THEN <<SP, Cl(Dup("INSERT", "subscriptions"), <<REL>>), RBT, St("UPDATE", "subscriptions")>>
+                      ELSE <<SP, Cl(St("INSERT", "subscriptions"), <<REL>>), REL>>) \o own)
+RECURSIVE CreateSubs(_, _)
+CreateSubs(d, subs) == IF subs = <<>> THEN F(<<>>) ELSE Then(CreateSub(d, Head(subs)), CreateSubs(d, Tail(subs)))
 
-TopicCreateFr(tags, dup) == Then(F(<<St("INSERT", "topics")>>), AddTags("topictags", tags, dup, FALSE))
-UserCreateFr(tags, dup)  == Then(F(<<St("INSERT", "users")>>), AddTags("usertags", tags, dup, FALSE))
+TopicCreateFr(d, tags, dup) == Then(F(<<St("INSERT", "topics")>>), AddTags(d, "topictags", tags, dup, FALSE))
+UserCreateFr(d, tags, dup)  == Then(F(<<St("INSERT", "users")>>), AddTags(d, "usertags", tags, dup, FALSE))
 
 UserDeleteFr(hard) ==
   IF hard THEN F(<<St("DELETE", "devices"), St("DELETE", "subscriptions"), St("DELETE", "dellog"), St("DELETE", "dellog"),
@@ -95,33 +118,39 @@ UserDeleteFr(hard) ==
   ELSE F(<<St("UPDATE", "subscriptions"), St("UPDATE", "subscriptions"), St("UPDATE", "topics"), St("UPDATE", "topics"),
            St("UPDATE", "subscriptions"), St("UPDATE", "users")>>)
 
-UserUpdateFr(state, tags, dup) ==
+UserUpdateFr(d, state, tags, dup) ==
   Then(F(<<St("UPDATE", "users")>> \o (IF state THEN <<St("UPDATE", "topics"), St("UPDATE", "topics")>> ELSE <<>>)),
-       IF tags < 0 THEN F(<<>>) ELSE Then(F(<<St("DELETE", "usertags")>>), AddTags("usertags", tags, dup, FALSE)))
+       IF tags < 0 THEN F(<<>>) ELSE Then(F(<<St("DELETE", "usertags")>>), AddTags(d, "usertags", tags, dup, FALSE)))
 
-UserUpdateTagsFr(reset, add, rem, dup) ==
-  Then(IF reset THEN Then(F(<<St("DELETE", "usertags")>>), AddTags("usertags", add, dup, FALSE))
-       ELSE Then(AddTags("usertags", add, dup, TRUE), F(IF rem > 0 THEN <<St("DELETE", "usertags")>> ELSE <<>>)),
-       F(<<St("SELECT", "usertags"), St("UPDATE", "users")>>))
+\* removeTags: mysql:824 one DELETE.  postgres:668 passes the argument slice as ONE argument (`tx.Exec(ctx, sql, args)`),
+\* pgx rejects the call ("expected n arguments, got 1") before anything is executed: an early error exit.
+RemoveTags(d, rem) == IF rem <= 0 THEN F(<<>>) ELSE IF d = "mysql" THEN F(<<St("DELETE", "usertags")>>) ELSE X(<<>>)
+\* postgres:1194 does not look at rows.Err() of the SELECT; its failure is only noticed by the next statement.
+UserUpdateTagsFr(d, reset, add, rem, dup) ==
+  Then(IF reset THEN Then(F(<<St("DELETE", "usertags")>>), AddTags(d, "usertags", add, dup, FALSE))
+       ELSE Then(AddTags(d, "usertags", add, dup, TRUE), RemoveTags(d, rem)),
+       F(<<IF d = "pg" THEN Ign(St("SELECT", "usertags")) ELSE St("SELECT", "usertags"), St("UPDATE", "users")>>))
 
-TopicDeleteFr(hard) ==
+\* TopicDelete: postgres:1929 soft delete passes the argument slice as one argument as well: always an early error exit.
+TopicDeleteFr(d, hard) ==
   IF hard THEN F(<<St("DELETE", "subscriptions"), St("DELETE", "dellog"), St("DELETE", "messages"),
                    St("DELETE", "topictags"), St("DELETE", "topics")>>)
+  ELSE IF d = "pg" THEN X(<<>>)
   ELSE F(<<St("UPDATE", "subscriptions"), St("UPDATE", "topics")>>)
 
-TopicUpdateFr(tags, dup) ==
+TopicUpdateFr(d, tags, dup) ==
   Then(F(<<St("UPDATE", "topics")>>),
-       IF tags < 0 THEN F(<<>>) ELSE Then(F(<<St("DELETE", "topictags")>>), AddTags("topictags", tags, dup, FALSE)))
+       IF tags < 0 THEN F(<<>>) ELSE Then(F(<<St("DELETE", "topictags")>>), AddTags(d, "topictags", tags, dup, FALSE)))
 
-\* messageDeleteList (adapter.go:2689)
-MsgDelFr(mode, ranges) ==
+\* messageDeleteList (mysql:2689 with PREPARE, postgres:2588 without)
+MsgDelFr(d, mode, ranges) ==
   IF mode = "all" THEN F(<<St("DELETE", "dellog"), St("DELETE", "messages")>>)
-  ELSE F(<<Pr("INSERT", "dellog")>> \o Rep(ranges, St("INSERT", "dellog"))
+  ELSE F((IF d = "mysql" THEN <<Pr("INSERT", "dellog")>> ELSE <<>>) \o Rep(ranges, St("INSERT", "dellog"))
          \o (IF mode = "hard" THEN <<St("DELETE", "filemsglinks"), St("UPDATE", "messages")>> ELSE <<>>))
 
-\* CredUpsert (adapter.go:2928)
-CredUpsertFr(mode) ==
-  LET sh(st) == IF DEV_CredUpsertShadowedErr THEN Shadow(st) ELSE st
+\* CredUpsert (mysql:2928, postgres:2827; the shadowed err is in both)
+CredUpsertFr(d, mode) ==
+  LET sh(st) == IF (d = "mysql" /\ DEV_CredUpsertShadowedErr) \/ (d = "pg" /\ DEV_PgCredUpsertShadowedErr) THEN Shadow(st) ELSE st
       pre == <<St("SELECT", "credentials"), St("UPDATE", "credentials"), sh(St("UPDATE", "credentials"))>>
   IN CASE mode = "done"        -> F(<<St("DELETE", "credentials"), St("INSERT", "credentials")>>)
        [] mode = "done_dupe"   -> X(<<St("DELETE", "credentials"), Dup("INSERT", "credentials")>>)
@@ -130,7 +159,7 @@ CredUpsertFr(mode) ==
        [] mode = "insert"      -> F(pre \o <<St("INSERT", "credentials")>>)
        [] mode = "insert_dupe" -> X(pre \o <<Dup("INSERT", "credentials")>>)
 
-\* credDel (adapter.go:3009).  NB case 2.2 (`count >= 0`) always ends with ErrNotFound.
+\* credDel (mysql:3009, postgres:2908).  NB case 2.2 (`count >= 0`) always ends with ErrNotFound.
 CredDelFr(mode, aff) ==
   IF aff > 0 THEN F(<<St("DELETE", "credentials")>>)
   ELSE IF mode = "all" THEN X(<<St("DELETE", "credentials")>>)
@@ -159,26 +188,26 @@ OneTx(frs) == LET RECURSIVE cat(_)
                   cat(s) == IF s = <<>> THEN F(<<>>) ELSE Then(Head(s), cat(Tail(s)))
               IN OpOf(<<TxSeg(cat(frs))>>)
 
-\* The program of operation `op` on the branch described by the parameter record p (see the Go harness).
-Prog(op, p) ==
-  CASE op = "UserCreate"      -> OpOf(<<TxSeg(UserCreateFr(p.tags, p.dup))>>)
+\* The program of operation `op` on the branch described by the parameter record p (see the Go harness), MySQL shape.
+ProgD(op, p, d) ==
+  CASE op = "UserCreate"      -> OpOf(<<TxSeg(UserCreateFr(d, p.tags, p.dup))>>)
     [] op = "UserDelete"      -> OpOf(<<TxSeg(UserDeleteFr(p.hard))>>)
-    [] op = "UserUpdate"      -> OpOf(<<TxSeg(UserUpdateFr(p.state, p.tags, p.dup))>>)
-    [] op = "UserUpdateTags"  -> OpOf(<<TxSeg(UserUpdateTagsFr(p.reset, p.add, p.rem, p.dup))>>)
-    [] op = "TopicCreate"     -> OpOf(<<TxSeg(TopicCreateFr(p.tags, p.dup))>>)
-    [] op = "TopicCreateP2P"  -> OpOf(<<TxSeg(Then(CreateSubs(p.subs), TopicCreateFr(0, 0)))>>)
-    [] op = "TopicShare"      -> OpOf(<<TxSeg(CreateSubs(p.subs))>>)
-    [] op = "TopicDelete"     -> OpOf(<<TxSeg(TopicDeleteFr(p.hard))>>)
-    [] op = "TopicUpdate"     -> OpOf(<<TxSeg(TopicUpdateFr(p.tags, p.dup))>>)
+    [] op = "UserUpdate"      -> OpOf(<<TxSeg(UserUpdateFr(d, p.state, p.tags, p.dup))>>)
+    [] op = "UserUpdateTags"  -> OpOf(<<TxSeg(UserUpdateTagsFr(d, p.reset, p.add, p.rem, p.dup))>>)
+    [] op = "TopicCreate"     -> OpOf(<<TxSeg(TopicCreateFr(d, p.tags, p.dup))>>)
+    [] op = "TopicCreateP2P"  -> OpOf(<<TxSeg(Then(CreateSubs(d, p.subs), TopicCreateFr(d, 0, 0)))>>)
+    [] op = "TopicShare"      -> OpOf(<<TxSeg(CreateSubs(d, p.subs))>>)
+    [] op = "TopicDelete"     -> OpOf(<<TxSeg(TopicDeleteFr(d, p.hard))>>)
+    [] op = "TopicUpdate"     -> OpOf(<<TxSeg(TopicUpdateFr(d, p.tags, p.dup))>>)
     [] op = "SubsUpdate"      -> OpOf(<<TxSeg(F(<<St("UPDATE", "subscriptions")>>))>>)
-    [] op = "SubsDelete"      -> \* a.db.Begin(): no context on the transaction; the first statement has its own
+    [] op = "SubsDelete"      -> \* mysql: a.db.Begin(): no context on the transaction; the first statement has its own
          OpOf(<<[TxSeg(IF p.aff > 0 THEN F(<<Own(St("UPDATE", "subscriptions")), St("DELETE", "dellog")>>)
                        ELSE X(<<Own(St("UPDATE", "subscriptions"))>>)) EXCEPT !.ctx = FALSE]>>)
     [] op = "SubsDelForUser"  -> OpOf(<<TxSeg(F(<<St(IF p.hard THEN "DELETE" ELSE "UPDATE", "subscriptions")>>))>>)
-    [] op = "MessageDeleteList" -> OpOf(<<[TxSeg(MsgDelFr(p.mode, p.ranges)) EXCEPT !.named = TRUE]>>)
+    [] op = "MessageDeleteList" -> OpOf(<<[TxSeg(MsgDelFr(d, p.mode, p.ranges)) EXCEPT !.named = TRUE]>>)
     [] op = "DeviceUpsert"    -> OpOf(<<TxSeg(F(<<St("DELETE", "devices"), St("INSERT", "devices")>>))>>)
     [] op = "DeviceDelete"    -> OpOf(<<TxSeg(IF p.aff > 0 THEN F(<<St("DELETE", "devices")>>) ELSE X(<<St("DELETE", "devices")>>))>>)
-    [] op = "CredUpsert"      -> OpOf(<<TxSeg(CredUpsertFr(p.mode))>>)
+    [] op = "CredUpsert"      -> OpOf(<<TxSeg(CredUpsertFr(d, p.mode))>>)
     [] op = "CredDel"         -> OpOf(<<TxSeg(CredDelFr(p.mode, p.aff))>>)
     [] op = "FileFinishUpload" -> \* transaction and statements share one context
          OpOf(<<TxSeg(F(<<Own(St(IF p.mode = "success" THEN "UPDATE" ELSE "DELETE", "fileuploads"))>>))>>)
@@ -190,20 +219,22 @@ Prog(op, p) ==
     \* ---- mapper level (server/store/store.go)
     [] op = "Users.Create" ->      \* store.go:291
          IF DEV_UsersCreateCompensates
-         THEN [segs |-> <<TxSeg(UserCreateFr(p.tags, 0)), TxSeg(CreateSubs(<<<<0, 0>>, <<0, 0>>>>))>>,
-               comp |-> <<TxSeg(UserDeleteFr(TRUE))>>, compFrom |-> 2]
-         ELSE OneTx(<<UserCreateFr(p.tags, 0), CreateSubs(<<<<0, 0>>, <<0, 0>>>>)>>)
+         THEN [OpOf(<<TxSeg(UserCreateFr(d, p.tags, 0)), TxSeg(CreateSubs(d, <<<<0, 0>>, <<0, 0>>>>))>>)
+                 EXCEPT !.comp = <<TxSeg(UserDeleteFr(TRUE))>>, !.compFrom = 2]
+         ELSE OneTx(<<UserCreateFr(d, p.tags, 0), CreateSubs(d, <<<<0, 0>>, <<0, 0>>>>)>>)
     [] op = "Topics.Create" ->     \* store.go:531
-         IF p.subs = <<>> THEN OpOf(<<TxSeg(TopicCreateFr(p.tags, 0))>>)      \* no owner: no subscription is created
+         IF p.subs = <<>> THEN OpOf(<<TxSeg(TopicCreateFr(d, p.tags, 0))>>)      \* no owner: no subscription is created
          ELSE IF DEV_TopicsCreateTwoTx
-         THEN OpOf(<<TxSeg(TopicCreateFr(p.tags, 0)), TxSeg(CreateSubs(p.subs))>>)
-         ELSE OneTx(<<TopicCreateFr(p.tags, 0), CreateSubs(p.subs)>>)
+         THEN OpOf(<<TxSeg(TopicCreateFr(d, p.tags, 0)), TxSeg(CreateSubs(d, p.subs))>>)
+         ELSE OneTx(<<TopicCreateFr(d, p.tags, 0), CreateSubs(d, p.subs)>>)
     [] op = "Messages.DeleteList" ->   \* store.go:715
-         IF p.mode = "all" THEN OpOf(<<[TxSeg(MsgDelFr("all", 0)) EXCEPT !.named = TRUE]>>)
+         IF p.mode = "all" THEN OpOf(<<[TxSeg(MsgDelFr(d, "all", 0)) EXCEPT !.named = TRUE]>>)
          ELSE IF DEV_DeleteListThreeTx
-         THEN OpOf(<<[TxSeg(MsgDelFr(p.mode, p.ranges)) EXCEPT !.named = TRUE],
-                     TxSeg(TopicUpdateFr(-1, 0)), TxSeg(F(<<St("UPDATE", "subscriptions")>>))>>)
-         ELSE OneTx(<<MsgDelFr(p.mode, p.ranges), TopicUpdateFr(-1, 0), F(<<St("UPDATE", "subscriptions")>>)>>)
+         THEN OpOf(<<[TxSeg(MsgDelFr(d, p.mode, p.ranges)) EXCEPT !.named = TRUE],
+                     TxSeg(TopicUpdateFr(d, -1, 0)), TxSeg(F(<<St("UPDATE", "subscriptions")>>))>>)
+         ELSE OneTx(<<MsgDelFr(d, p.mode, p.ranges), TopicUpdateFr(d, -1, 0), F(<<St("UPDATE", "subscriptions")>>)>>)
+
+Prog(op, p, d) == [ProgD(op, p, d) EXCEPT !.dialect = d]
 
 \* ------------------------------------------------------------------ the machine
 \* pc: call -> step* -> end -> defer -> next -> (call ... | done)
@@ -213,6 +244,10 @@ InitState(op, cfg, fk, fkind) ==
    open |-> FALSE,      \* the server has an open transaction on the current connection
    sqlTx |-> FALSE,     \* database/sql's Tx object is live (connection checked out)
    dead |-> FALSE, down |-> FALSE, expired |-> FALSE,
+   aborted |-> FALSE,   \* pg: the transaction block is in the aborted state (every statement fails until ROLLBACK [TO SAVEPOINT])
+   sp |-> FALSE,        \* pg: a savepoint exists
+   cq |-> <<>>,         \* pg: statements the code still issues after a failure before it returns (errors ignored)
+   failing |-> FALSE, fshadow |-> FALSE,   \* pg: a statement failed, return once cq is drained
    errVar |-> FALSE,    \* the function's `err` variable as the deferred handler sees it
    retErr |-> FALSE,    \* what the current adapter call returns
    evs |-> <<>>,        \* predicted driver trace: <<event, verb, table, ok>>
@@ -313,11 +348,88 @@ DoNext(s) ==
   ELSE IF s.seg < Len(s.op.segs) THEN [s EXCEPT !.seg = @ + 1, !.pc = "call"]
   ELSE [s EXCEPT !.pc = "done"]
 
+\* ------------------------------------------------------------------ the machine, PostgreSQL / pgx semantics
+\* Differences that matter: (1) every call carries the context, a deadline closes the connection (pgx), nothing rolls back
+\* on cancel(); (2) any failed statement aborts the transaction block; (3) calls on a closed connection fail without a
+\* round trip; (4) COMMIT of an aborted block answers ROLLBACK and pgx reports ErrTxCommitRollback.
+PgLoses(s, k) == k \in {"connloss", "outage"} \/ (k = "deadline" /\ s.cfg = "timeout")
+
+PgDoCall(s) ==
+  LET sg == CurSeg(s)
+      fresh == [s EXCEPT !.i = 1, !.errVar = FALSE, !.retErr = FALSE, !.expired = FALSE, !.dead = FALSE, !.open = FALSE,
+                         !.sqlTx = FALSE, !.pend = {}, !.aborted = FALSE, !.sp = FALSE, !.cq = <<>>, !.failing = FALSE, !.fshadow = FALSE]
+  IN IF s.down /\ (sg.tx \/ sg.steps # <<>>) THEN [fresh EXCEPT !.retErr = TRUE, !.pc = "next"]
+     ELSE IF ~sg.tx THEN [fresh EXCEPT !.pc = "step"]
+     ELSE LET p == s.pos + 1
+              k == KindAt(s, p)
+              fails == k = "err" \/ PgLoses(s, k)
+              s1 == [Emit(fresh, "BEGIN", "", "", ~fails) EXCEPT !.pos = p, !.hit = @ \/ fails, !.hitFail = @ \/ fails]
+          IN IF fails THEN [s1 EXCEPT !.retErr = TRUE, !.pc = "next", !.down = @ \/ k = "outage"]   \* pgx kills the connection
+             ELSE [s1 EXCEPT !.open = TRUE, !.sqlTx = TRUE, !.pc = "step"]
+
+PgDoStep(s) ==
+  LET sg == CurSeg(s)
+      inCq == s.cq # <<>>
+  IN IF ~inCq /\ s.failing THEN Fail(s, [shadow |-> s.fshadow])
+     ELSE IF ~inCq /\ s.i > Len(sg.steps) THEN [s EXCEPT !.pc = "end"]
+     ELSE
+       LET st == IF inCq THEN Head(s.cq) ELSE sg.steps[s.i]
+           adv(x) == IF inCq THEN [x EXCEPT !.cq = Tail(@)] ELSE [x EXCEPT !.i = @ + 1]
+           onErr(x) == IF inCq \/ st.ign THEN adv(x)
+                       ELSE [x EXCEPT !.cq = st.cleanup, !.failing = TRUE, !.fshadow = st.shadow]
+       IN IF s.dead THEN onErr(s)       \* closed connection (or expired context): no round trip
+          ELSE
+            LET p == s.pos + 1
+                k == KindAt(s, p)
+                lose == PgLoses(s, k)
+                spErr == (st.verb \in {"ROLLBACK_TO", "RELEASE"} /\ ~s.sp) \/ (st.verb = "SAVEPOINT" /\ ~s.open)
+                abErr == s.aborted /\ st.verb # "ROLLBACK_TO"
+                hard == k = "err" \/ lose \/ abErr \/ spErr       \* fails for a reason the code does not handle
+                fails == hard \/ ~st.ok
+                w == ~fails /\ IsWrite(st.verb)
+                wr == [pos |-> p, verb |-> st.verb, tbl |-> st.tbl, comp |-> s.mode = "comp"]
+                s1 == [Emit(s, "STMT", st.verb, st.tbl, ~fails) EXCEPT
+                         !.pos = p, !.hit = @ \/ k = "err" \/ lose, !.hitFail = @ \/ k = "err" \/ lose,
+                         !.pend = IF lose THEN {} ELSE IF w /\ s.open THEN @ \cup {wr} ELSE @,
+                         !.dur = IF w /\ ~s.open THEN @ \cup {wr} ELSE @,
+                         !.outside = IF w /\ ~s.open THEN @ + 1 ELSE @,
+                         !.aborted = IF lose THEN FALSE ELSE IF fails /\ s.open THEN TRUE
+                                     ELSE IF st.verb = "ROLLBACK_TO" THEN FALSE ELSE @,
+                         !.sp = IF ~fails /\ st.verb = "SAVEPOINT" THEN TRUE ELSE IF ~fails /\ st.verb = "RELEASE" THEN FALSE ELSE @,
+                         !.dead = @ \/ lose, !.open = IF lose THEN FALSE ELSE @, !.down = @ \/ k = "outage"]
+            IN IF ~hard THEN adv(s1)         \* success, or the duplicate that the code handles
+               ELSE onErr(s1)
+
+PgDoEnd(s) ==
+  LET sg == CurSeg(s) IN
+  IF sg.end = "errexit" THEN [s EXCEPT !.errVar = TRUE, !.retErr = TRUE, !.pc = "defer"]
+  ELSE IF ~sg.tx THEN [s EXCEPT !.pc = "defer"]
+  ELSE IF s.dead THEN [s EXCEPT !.retErr = TRUE, !.errVar = @ \/ sg.named, !.sqlTx = FALSE, !.pc = "defer"]
+  ELSE LET p == s.pos + 1
+           k == KindAt(s, p)
+           lose == PgLoses(s, k)
+           fails == k = "err" \/ lose
+           rb == ~fails /\ s.aborted        \* the server answers ROLLBACK
+           s1 == [Emit(s, "COMMIT", "", "", ~fails /\ ~rb) EXCEPT !.pos = p, !.sqlTx = FALSE, !.open = FALSE, !.aborted = FALSE,
+                     !.pend = {}, !.hit = @ \/ fails, !.hitFail = @ \/ fails, !.dead = lose, !.down = @ \/ k = "outage", !.pc = "defer"]
+       IN IF fails \/ rb THEN [s1 EXCEPT !.retErr = TRUE, !.errVar = @ \/ sg.named]
+          ELSE [s1 EXCEPT !.dur = @ \cup s.pend]
+
+PgDoDefer(s) ==
+  LET s1 == IF s.errVar /\ s.sqlTx
+            THEN IF s.dead THEN [s EXCEPT !.sqlTx = FALSE]      \* Rollback on a closed connection: no round trip, connection discarded
+                 ELSE [Emit(s, "ROLLBACK", "", "", TRUE) EXCEPT !.open = FALSE, !.aborted = FALSE, !.sqlTx = FALSE, !.pend = {}]
+            ELSE s
+      s3 == IF s1.sqlTx THEN [s1 EXCEPT !.leakedConn = @ + 1, !.leakedOpen = @ + (IF s1.open THEN 1 ELSE 0),
+                                        !.sqlTx = FALSE, !.open = FALSE, !.pend = {}] ELSE s1
+  IN [s3 EXCEPT !.pc = "next"]
+
 Step(s) ==
-  CASE s.pc = "call"  -> DoCall(s)
-    [] s.pc = "step"  -> DoStep(s)
-    [] s.pc = "end"   -> DoEnd(s)
-    [] s.pc = "defer" -> DoDefer(s)
+  LET pg == s.op.dialect = "pg" IN
+  CASE s.pc = "call"  -> IF pg THEN PgDoCall(s) ELSE DoCall(s)
+    [] s.pc = "step"  -> IF pg THEN PgDoStep(s) ELSE DoStep(s)
+    [] s.pc = "end"   -> IF pg THEN PgDoEnd(s) ELSE DoEnd(s)
+    [] s.pc = "defer" -> IF pg THEN PgDoDefer(s) ELSE DoDefer(s)
     [] s.pc = "next"  -> DoNext(s)
 
 RECURSIVE RunFrom(_)
